@@ -441,6 +441,9 @@ class Formatter:
             str_us = str(parsed["timestamp"])
             if "." in str_us:
                 microseconds = int(f'{str_us.split(".")[1].ljust(6, "0")}')
+                if parsed["timestamp"] < 0 and microseconds:
+                    # local_time() floors the seconds of a negative timestamp
+                    microseconds = 1000000 - microseconds
             else:
                 microseconds = 0
 
